@@ -57,6 +57,10 @@ func runC08(r *engine.Run) {
 	r.Rule("WHO-readonly", "see C06: lookups never store into a pending map")
 	r.Rule("CLONE-boundary", "see C07: values crossing a cache boundary are Clone() results")
 	r.Rule("FRESH-write", "see C06: a write stores a fresh Clone(), never the old entry refreshed in place")
+	r.Rule("WHO-versions", "a per-key versions map is only read or added to (Get, Peek, Add, ContainsOrAdd, PeekOrAdd, Contains, Len, Keys); Purge, Remove and the like are never called on one: versions leave by capacity eviction only, so the lock-free ancestor walk's memo can never become the newest entry of a map that was just emptied")
+	r.Rule("ORDER-commitclear", "in StateCache.commit no versions-map Add is reachable after the store that replaces the block's pending map: the pending writes are dropped only after all of them were published")
+	r.Rule("WHO-globalcache", "package statecache keeps no cache instance (StateCache, BlockCache, TransactionCache, QueryBlockCache) in a package-level variable: caches are per block / per transaction objects")
+	r.Rule("DEP-walk", "see C06: the ancestor walk of StateCache.Get uses only the queried hash and stored links, and memoises exactly the entry it found (all fields, the tombstone flag included) under the queried hash")
 	r.NotDec = append(r.NotDec, "that every interleaving of the lock-free StateCache.Get with a commit yields the block-tree-determined value (needs exploration of interleavings)")
 	const rule = "LOCK-statecache"
 	entries := exportedEntries(r, rule, pkgSC, scOwners)
@@ -104,6 +108,10 @@ func runC08(r *engine.Run) {
 	whoReadOnly(r, "WHO-readonly")
 	cloneBoundary(r, "C08")
 	freshWrite(r, "FRESH-write")
+	whoVersions(r, "WHO-versions")
+	orderCommitClear(r, "ORDER-commitclear")
+	whoGlobalCache(r, "WHO-globalcache")
+	depWalk(r)
 }
 
 func orderPublish(r *engine.Run, commit *ssa.Function) {
